@@ -36,6 +36,32 @@ def rule(prog, res, classes, rule_name='setter-stores', minimum=None):
             continue   # getter computes from something the rule does not read: not a plain value pair
         n += 1
         wrote = {p[0] for r, p, k in E.of(s) if r == 'this' and p}
+        # a plain value setter hands the value on as given: arithmetic / a narrowing conversion on the way into the very field
+        # the getter returns changes what is read back
+        changed = None
+        Rs = Renderer(s)
+        for nd in s.nodes:
+            lhs = rhs = None
+            if nd['k'] == 'BinaryOperator' and nd['op'] == '=':
+                lhs, rhs = nd['ch'][0], nd['ch'][1]
+            elif nd['k'] == 'CXXOperatorCallExpr' and nd.get('op') == '=' and len(nd.get('args', [])) == 2:
+                lhs, rhs = nd['args'][0], nd['args'][1]
+            if lhs is None:
+                continue
+            lt = Rs.render(lhs)
+            mf = re.match(r'^this\.(\w+)$', lt)
+            if not mf or mf.group(1) not in read or len(read) != 1:
+                continue
+            for x in [rhs] + list(s.descendants(rhs)):
+                xn = s.nodes[x]
+                if xn['k'] == 'BinaryOperator' and xn.get('op') in ('+', '-', '*', '/', '%') and 'arg0' in Rs.render(x):
+                    changed = 'arithmetic (%s)' % Rs.render(x)[:80]
+                if xn['k'] in ('CXXStaticCastExpr', 'CStyleCastExpr', 'CXXFunctionalCastExpr', 'ImplicitCastExpr') and xn.get('ck') == 'FloatingToIntegral' and 'arg0' in Rs.render(x):
+                    changed = 'a float-to-integer conversion (%s)' % Rs.render(x)[:80]
+        if changed and wrote & read:
+            res.viol(rule_name, inst, s.loc(), 'the setter stores its argument through %s: the value read back through the getter of the same name is not the value that was set' % changed,
+                     function=s.sig, expr='setter:' + q.split('::')[-1], sure=True)
+            continue
         if wrote & read:
             res.ok(rule_name, inst, s.loc(), 'stores into %s, which the getter of the same name reads' % sorted(wrote & read), function=s.sig, expr='setter:' + q.split('::')[-1])
         elif not wrote:
